@@ -8,7 +8,8 @@
     tree; `Mxj.Enc.marshalN_eq_render` (Lemmas/Encode.lean) says bytes = rendering of the tree.
   * `image` is what must come back when a JSON-shaped value is encoded and then decoded with
     default options (the documented conventions `Conv.value` applied to the encoder's tree).
-  * `EncDomain`, `Decoded`, `NamesOk`, `coalesce` — the domains of the theorems.
+  * `Plain`, `EncDomain`, `Decoded`, `NamesOk`, `WellNamed` — the domains of the theorems;
+    `anyTree`/`anyImage` — the same for `AnyXml`.
 
   Core Lean only, executable definitions; the proofs live in Lemmas/Encode.lean and Props/.
 -/
@@ -323,5 +324,57 @@ end
 
 /-- … and no two adjacent text nodes (the tokenizer would hand them over as one) -/
 def WellNamed (n : Node) : Bool := wellNamedNode n && noAdjText n
+
+/-! ### `AnyXml` in tree form -/
+
+/-- one member of a top-level list: a single-entry map `{tag: val}` whose key can be an element
+    name is unwrapped (element `tag`), anything else goes under the element tag `et` -/
+def anyMember (cfg : EncCfg) (et : Str) (x : Val) : Except ErrKind (List Node) :=
+  match x with
+  | .map [(tag, val)] =>
+      if tag = cfg.textK || isAttrK cfg tag then encTree cfg et x.norm
+      else encTree cfg tag val.norm
+  | x => encTree cfg et x.norm
+
+def anyMembers (cfg : EncCfg) (et : Str) : List Val → Except ErrKind (List Node)
+  | [] => .ok []
+  | x :: rest =>
+    match anyMember cfg et x with
+    | .error e => .error e
+    | .ok a => match anyMembers cfg et rest with
+      | .error e => .error e
+      | .ok r => .ok (a ++ r)
+
+/-- `anyXml` producing trees (an empty top-level list is written `<rt></rt>`: an element with
+    an empty text child in the canonical rendering) -/
+def anyTree (cfg : EncCfg) (v : Val) (rt et : Str) : Except ErrKind (List Node) :=
+  match v with
+  | .null => .ok [.elem [] rt [] []]
+  | .list xs =>
+      match anyMembers cfg et xs with
+      | .error e => .error e
+      | .ok kids => .ok [.elem [] rt [] (if kids.isEmpty then [.text []] else kids)]
+  | v => encTree cfg rt v.norm
+
+/-- the `(key, value)` sequence the members of a top-level list decode to -/
+def anyPairs (et : Str) : List Val → List (Str × Val)
+  | [] => []
+  | x :: rest =>
+      (match x with
+        | .map [(tag, val)] =>
+            if tag = ec.textK || isAttrK ec tag then (imageSibs x.norm).map (et, ·)
+            else (imageSibs val.norm).map (tag, ·)
+        | x => (imageSibs x.norm).map (et, ·))
+      ++ anyPairs et rest
+
+/-- what `AnyXml(v, rt, et)` decodes to under the root tag: for a list, the members' images
+    under their tags, grouped by the decoder's own grouping of repeated keys; otherwise the
+    image of the value -/
+def anyImage (v : Val) (et : Str) : Val :=
+  match v with
+  | .list xs =>
+      if (Conv.groupOnto [] (anyPairs et xs)).isEmpty then .str []
+      else .map (Conv.groupOnto [] (anyPairs et xs))
+  | v => image v.norm
 
 end Mxj
